@@ -76,6 +76,7 @@ const (
 	kTopPtr
 	kArr1 // varargs array holding one const
 	kArr1Ptr
+	kTblElem // &table[byte] of a constant package-level bool table: set = the bytes whose entry is true
 )
 
 type scVal struct {
@@ -143,6 +144,7 @@ func (fr *scFrame) clone() *scFrame {
 type scEval struct {
 	scannerT    *types.Struct
 	depthBounds []int64
+	tables      map[*ssa.Global]*[256]bool // constant bool tables of the codec (byte classes spelled as look-ups)
 }
 
 func (e *scEval) val(fr *scFrame, v ssa.Value) scVal {
@@ -228,6 +230,22 @@ func (e *scEval) run(fr *scFrame, b *ssa.BasicBlock, idx int, pred *ssa.BasicBlo
 			}
 		case *ssa.IndexAddr:
 			x, ix := e.val(fr, ins.X), e.val(fr, ins.Index)
+			if g, isG := ins.X.(*ssa.Global); isG && ix.k == kByte {
+				if t, ok := e.tables[g]; ok {
+					var set bset
+					for c := 0; c < 256; c++ {
+						k := int64(c)
+						if ix.tbl != nil {
+							k = ix.tbl[c]
+						}
+						if k >= 0 && k < 256 && t[k] {
+							set.add(c)
+						}
+					}
+					fr.env[ins] = scVal{k: kTblElem, set: set}
+					continue
+				}
+			}
 			switch {
 			case x.k == kStack && ix.lenM1:
 				if fr.popd {
@@ -277,6 +295,8 @@ func (e *scEval) run(fr *scFrame, b *ssa.BasicBlock, idx int, pred *ssa.BasicBlo
 					panic("read top of empty stack in " + fr.fn.Name())
 				}
 				fr.env[ins] = scVal{k: kConst, n: int64(fr.cx.top)}
+			case ins.Op == token.MUL && x.k == kTblElem:
+				fr.env[ins] = scVal{k: kPred, set: x.set}
 			case ins.Op == token.NOT && x.k == kBool:
 				fr.env[ins] = scVal{k: kBool, b: !x.b}
 			case ins.Op == token.NOT && x.k == kPred:
@@ -1227,7 +1247,19 @@ func ruleScan(c *Ctx) {
 		return
 	}
 	st, _ := stT.Type().Underlying().(*types.Struct)
-	ev := &scEval{scannerT: st}
+	ev := &scEval{scannerT: st, tables: map[*ssa.Global]*[256]bool{}}
+	for name, m := range sp.Members {
+		if g, ok := m.(*ssa.Global); ok {
+			if at, isArr := g.Type().(*types.Pointer).Elem().Underlying().(*types.Array); isArr && at.Len() <= 256 {
+				if bt, isB := at.Elem().Underlying().(*types.Basic); isB && bt.Kind() == types.Bool {
+					if t, _, ok := b.boolTable(sp, name); ok && len(b.globalStoresOutsideInit(g)) == 0 {
+						tt := t
+						ev.tables[g] = &tt
+					}
+				}
+			}
+		}
+	}
 	// start state: the function constant stored into step by (*scanner).reset
 	reset := b.method(sp, "scanner", "reset")
 	var start *ssa.Function
@@ -2114,6 +2146,46 @@ func ruleDriver(c *Ctx) {
 					}
 				}
 			}
+			// the empty text is no JSON text: `false` for len(data) == 0, decided by nothing else,
+			// says what the scanner would say
+			if k, isK := boolConst(rv); !is && isK && !k {
+				deps := b.controlDeps(r.Block())
+				emptyOnly := len(deps) > 0
+				for _, e := range deps {
+					iff, isIf := lastInstr(e.From).(*ssa.If)
+					if !isIf {
+						emptyOnly = false
+						continue
+					}
+					c0, neg := stripNot(iff.Cond)
+					bo, isBo := c0.(*ssa.BinOp)
+					if !isBo || bo.Op != token.EQL && bo.Op != token.NEQ {
+						emptyOnly = false
+						continue
+					}
+					z, isZ := intConst(bo.Y)
+					lc, isLen := bo.X.(*ssa.Call)
+					if !isZ || z != 0 || !isLen || len(lc.Call.Args) != 1 || lc.Call.Args[0] != ssa.Value(v.Params[0]) {
+						emptyOnly = false
+						continue
+					}
+					if bi, isB := lc.Call.Value.(*ssa.Builtin); !isB || bi.Name() != "len" {
+						emptyOnly = false
+						continue
+					}
+					// the edge taken is the "length is zero" one
+					zeroSucc := 0
+					if (bo.Op == token.NEQ) != neg {
+						zeroSucc = 1
+					}
+					if e.Succ != zeroSucc {
+						emptyOnly = false
+					}
+				}
+				if emptyOnly {
+					is = true
+				}
+			}
 			if !is {
 				other = b.posOf(r)
 			}
@@ -2419,4 +2491,27 @@ func (b *Body) cursorDrivers(l *Ledger, sp *ssa.Package) {
 			l.add("R-DRIVER", "codec", key, b.rel(fn.Pos()), Discharged, fmt.Sprintf("%d advance(s) of the cursor, each by one, each in the block of step(scan, data[i]) for the same i", n), true)
 		}
 	}
+}
+
+// globalStoresOutsideInit: element or whole stores into g anywhere but the package initialiser.
+func (b *Body) globalStoresOutsideInit(g *ssa.Global) []ssa.Instruction {
+	var out []ssa.Instruction
+	for _, fn := range b.srcFuncs(g.Pkg) {
+		if fn.Name() == "init" && fn.Parent() == nil {
+			continue
+		}
+		allInstrs(fn, func(i ssa.Instruction) {
+			st, ok := i.(*ssa.Store)
+			if !ok {
+				return
+			}
+			if st.Addr == ssa.Value(g) {
+				out = append(out, st)
+			}
+			if ia, ok := st.Addr.(*ssa.IndexAddr); ok && ia.X == ssa.Value(g) {
+				out = append(out, st)
+			}
+		})
+	}
+	return out
 }
